@@ -18,6 +18,8 @@ static uint32_t parse_result; static bool throw_on_insert;
 extern "C" void stub_notify(Interpret const *, bool error, const char *, ...) { if (error) errors++; }
 extern "C" void stub_success(Interpret const *) { successes++; }
 extern "C" PTRef stub_parseTerm(Interpret *, ASTNode const *, LetRecords *) { return PTRef{parse_result}; }
+static uint32_t cur_level;
+extern "C" std::size_t stub_getAssertionLevel(MainSolver const *) { return cur_level; }
 extern "C" void stub_insertFormula(MainSolver *, PTRef t) {
     if (throw_on_insert) throw ApiException("Top-level assertion sort must be Bool");
     if (inserted_n < 4) inserted[inserted_n] = t.x;
@@ -31,11 +33,13 @@ extern "C" void h_assert() {
     *reinterpret_cast<void **>(&I.logic) = fakeLogic;
     *reinterpret_cast<void **>(&I.main_solver) = fakeSolver;
     new (&I.assertions) vec<PTRef>();
+    new (&I.assertionLevels) vec<std::size_t>();
+    cur_level = nondet_u8() & 3;
     // history: k accepted assertions, known to both sides in the same order
     int k = nondet_u8(); VASSUME(k >= 0 && k <= 2);
     uint32_t old[2];
-    I.assertions.capacity(4);
-    for (int i = 0; i < 2; i++) if (i < k) { old[i] = nondet_u32(); I.assertions.push(PTRef{old[i]}); inserted[i] = old[i]; }
+    I.assertions.capacity(4); I.assertionLevels.capacity(4);
+    for (int i = 0; i < 2; i++) if (i < k) { old[i] = nondet_u32(); I.assertions.push(PTRef{old[i]}); I.assertionLevels.push(0); inserted[i] = old[i]; }
     inserted_n = k; errors = 0; successes = 0;
     parse_result = nondet_u32();                    // PTRef_Undef = the term did not parse
     throw_on_insert = nondet_bool();
@@ -66,4 +70,6 @@ extern "C" void h_assert() {
     }
     // the invariant get-interpolants relies on: position i of `assertions` is the i-th formula the solver accepted
     VASSERT(I.assertions.size() == inserted_n, "assertion list and accepted formulas stay aligned");
+    VASSERT(I.assertionLevels.size() == I.assertions.size(), "every recorded assertion has a recorded assertion level");
+    if (!errors) VASSERT(I.assertionLevels[k] == cur_level, "an accepted assert is recorded with the solver's current assertion level");
 }
